@@ -5,6 +5,7 @@ import (
 	"go/ast"
 	"go/parser"
 	"go/token"
+	"math"
 	"os"
 	"path/filepath"
 	"sort"
@@ -12,6 +13,7 @@ import (
 	"strings"
 
 	"github.com/youzan/ZanRedisDB/common"
+	"github.com/youzan/ZanRedisDB/common/geohash"
 	"github.com/youzan/ZanRedisDB/node"
 	"github.com/youzan/ZanRedisDB/rockredis"
 )
@@ -186,7 +188,7 @@ func allRegs() []regEntry {
 	return out
 }
 
-func coqStr(s string) string { return "\"" + strings.ReplaceAll(s, "\"", "\"\"") + "\"" }
+func coqStr(s string) string { return "\"" + strings.ReplaceAll(s, "\"", "\"\"") + "\"%gname" }
 
 func coqStrList(l []string) string {
 	p := make([]string, len(l))
@@ -201,16 +203,20 @@ var kindCtor = map[string]string{"read": "KRead", "write": "KWrite", "merge": "K
 func consts() {
 	regs := allRegs()
 	fmt.Println("(* GENERATED by harness/cmd/nodesim -consts from /repo (go/ast over node/*.go + run-time router tables); do not edit *)")
-	fmt.Println("From Coq Require Import NArith String List.")
+	fmt.Println("From Coq Require Import NArith List.")
 	fmt.Println("From ZV Require Import Valid.Types.")
 	fmt.Println("Import ListNotations.")
-	fmt.Println("Open Scope string_scope.")
+	fmt.Println("Open Scope gname_scope.")
 	fmt.Printf("Definition ns_sep : N := %d%%N.\n", common.NamespaceTableSeperator)
 	fmt.Printf("Definition key_sep : N := %d%%N.\n", common.KEYSEP)
 	fmt.Printf("Definition max_key_size : N := %d%%N.\n", common.MaxKeySize)
 	fmt.Printf("Definition max_subkey_len : N := %d%%N.\n", common.MaxSubKeyLen)
 	fmt.Printf("Definition max_batch_num : N := %d%%N.\n", common.MAX_BATCH_NUM)
 	fmt.Printf("Definition max_bit_offset : N := %d%%N.\n", rockredis.MaxBitOffset)
+	fmt.Printf("Definition geo_long_min_bits : N := %d%%N.\n", math.Float64bits(geohash.WGS84_LONG_MIN))
+	fmt.Printf("Definition geo_long_max_bits : N := %d%%N.\n", math.Float64bits(geohash.WGS84_LONG_MAX))
+	fmt.Printf("Definition geo_lat_min_bits : N := %d%%N.\n", math.Float64bits(geohash.WGS84_LAT_MIN))
+	fmt.Printf("Definition geo_lat_max_bits : N := %d%%N.\n", math.Float64bits(geohash.WGS84_LAT_MAX))
 	fmt.Printf("Definition use_redis_v2_default : bool := %v.\n", node.UseRedisV2)
 	fmt.Println("(* registration tables: kind, name, wrapper, wrapper arguments as written in the source *)")
 	fmt.Println("Definition reg_table : list reg := [")
@@ -250,9 +256,9 @@ func consts() {
 			batch = append(batch, n)
 		}
 	}
-	fmt.Printf("Definition merge_scan_cmds : list string := %s.\n", coqStrList(mscan))
-	fmt.Printf("Definition full_scan_cmds : list string := %s.\n", coqStrList(mfull))
-	fmt.Printf("Definition merge_index_cmds : list string := %s.\n", coqStrList(midx))
-	fmt.Printf("Definition merge_keys_cmds : list string := %s.\n", coqStrList(mkeys))
-	fmt.Printf("Definition batchable_cmds : list string := %s.\n", coqStrList(batch))
+	fmt.Printf("Definition merge_scan_cmds : list gname := %s.\n", coqStrList(mscan))
+	fmt.Printf("Definition full_scan_cmds : list gname := %s.\n", coqStrList(mfull))
+	fmt.Printf("Definition merge_index_cmds : list gname := %s.\n", coqStrList(midx))
+	fmt.Printf("Definition merge_keys_cmds : list gname := %s.\n", coqStrList(mkeys))
+	fmt.Printf("Definition batchable_cmds : list gname := %s.\n", coqStrList(batch))
 }
